@@ -57,6 +57,9 @@ TEMPLATES = {
     "display": "pub fn probe(x: &Key<V, {K}>) -> String {{ format!(\"{{}}\", x) }}",
     "debug": "pub fn probe(x: &Key<V, {K}>) -> String {{ format!(\"{{:?}}\", x) }}",
     "serde_key": "pub fn probe(x: &Key<V, {K}>) {{ let _ = serde_json::to_string(x); }}",
+    # a key handed to caller-supplied code byte by byte: Hash feeds the key material into any Hasher
+    "key_hash": "pub fn probe<H: std::hash::Hasher>(x: &Key<V, {K}>, h: &mut H) {{ std::hash::Hash::hash(x, h); }}",
+    "key_eq": "pub fn probe(x: &Key<V, {K}>, y: &Key<V, {K}>) -> bool {{ x == y }}",
     "into_keytext": "pub fn probe(x: Key<V, {K}>) {{ let _: paseto_core::paserk::KeyText<V, {K}> = x.into(); }}",
     "send_sync": "pub fn probe() {{ fn shared<T: Send + Sync>() {{}} shared::<Key<V, {K}>>(); }}",
     "private_field": "pub fn probe(x: Key<V, {K}>) {{ let _ = x.0; }}",
@@ -73,6 +76,12 @@ TEMPLATES = {
     "display_unsealed": "pub fn probe(t: &UnsealedToken<V, Local, M>) -> String {{ format!(\"{{}}\", t) }}",
     "serde_sealed": "pub fn probe(t: &SealedToken<V, Public, M>) {{ let _ = serde_json::to_string(t); }}",
     "serde_unsealed": "pub fn probe(t: &UnsealedToken<V, Public, M>) {{ let _ = serde_json::to_string(t); }}",
+    # the same with claims and footer that are themselves serialisable (paseto-json's claims, no footer)
+    "serde_unsealed_claims": "pub fn probe(t: &UnsealedToken<V, Public, paseto_json::RegisteredClaims>) {{ let _ = serde_json::to_string(t); }}",
+    "serde_unencrypted_claims": "pub fn probe(t: &UnsealedToken<V, Local, paseto_json::RegisteredClaims, Vec<u8>>) {{ let _ = serde_json::to_string(t); }}",
+    # a correct program: the recipient key parsed in argument position, its type inferred from the parameter
+    "seal_inferred": "pub fn probe(x: Key<V, Local>, text: &str) -> Result<(), paseto_core::PasetoError> {{ let _ = x.seal(&text.parse()?); Ok(()) }}",
+    "wrap_inferred": "pub fn probe(x: Key<V, Local>, text: &str) -> Result<(), paseto_core::PasetoError> {{ let _ = x.wrap_pie(&text.parse()?); Ok(()) }}",
     "claims_of_sealed": "pub fn probe(t: SealedToken<V, Local, M>) {{ let _ = t.claims; }}",
     "footer_field_of_sealed": "pub fn probe(t: SealedToken<V, Local, M, Vec<u8>>) {{ let _ = t.footer; }}",
     "payload_field_of_sealed": "pub fn probe(t: SealedToken<V, Public, M>) {{ let _ = t.payload; }}",
@@ -121,7 +130,7 @@ def run(out, tier, seed):
     C.build_libs()
     deps = os.path.join(C.BUILD, "target", "debug", "deps")
     ext = {n: newest(os.path.join(deps, "lib%s-*.rlib" % n)) for n in
-           ["paseto_core", "serde_json", "paseto_v1", "paseto_v2", "paseto_v3", "paseto_v3_aws_lc", "paseto_v4", "paseto_v4_sodium"]}
+           ["paseto_core", "paseto_json", "serde_json", "paseto_v1", "paseto_v2", "paseto_v3", "paseto_v3_aws_lc", "paseto_v4", "paseto_v4_sodium"]}
     d = C.ensure_dir(os.path.join(C.BUILD, "c18"))
     jobs = []
     for be, (crate, vty, other) in BACKENDS.items():
@@ -137,7 +146,7 @@ def run(out, tier, seed):
         be, p, path, crate, ocrate = job
         cmd = ["rustc", "--edition", "2024", "--crate-type", "lib", "--emit=metadata", "--cap-lints", "allow", "--error-format=short",
                "-o", path[:-3] + ".rmeta", "-L", "dependency=" + deps]
-        for n in ("paseto_core", "serde_json", crate, ocrate):
+        for n in ("paseto_core", "paseto_json", "serde_json", crate, ocrate):
             cmd += ["--extern", "%s=%s" % (n, ext[n])]
         cmd.append(path)
         r = subprocess.run(cmd, stdout=subprocess.PIPE, stderr=subprocess.PIPE, text=True)
